@@ -41,7 +41,8 @@ META = {
     "order, and executed on the real Path class with os.stat/os.lstat/os.access answered from the abstract state; the "
     "same flag sets (one spelling each) are run against ~55 real path kinds from 3 working directories as root and as uid nobody; nested "
     "config chains up to 3 deep are enumerated over all directory assignments, reference spellings, entry channels, "
-    "nesting mechanisms and single invalid/broken positions. Acceptance, the exception type, .relative/.absolute and "
+    "nesting mechanisms and single invalid/broken positions, plus '+' appends of relative paths inside the files and "
+    "entry files handed over as Path / os.PathLike objects that remember another directory. Acceptance, the exception type, .relative/.absolute and "
     "the restored working directory are judged on every case. The verdict is exhaustive within these bounds.",
     "level_note": "Trusted: the mode predicate (c19_oracle.violated, 50 lines, from the Path docstring), the kernel-walk "
     "model of the virtual file system (c19_vfs.lookup, no symbolic links), os.stat/os.access/os.path.realpath as the "
@@ -643,9 +644,8 @@ def ctx_item(arg):
             out["n"] += 1
             key = f"ctx:entered={info['entered']}:{'raised' if info['raised'] else 'returned'}"
             out["counters"][key] = out["counters"].get(key, 0) + 1
-            if info["entered"] == len(case["steps"]):
-                for step in set(case["steps"]):
-                    out["counters"]["axis:ctx-step-entered=" + step] = out["counters"].get("axis:ctx-step-entered=" + step, 0) + 1
+            for step in info["valid_kinds"]:
+                out["counters"]["axis:ctx-step-valid=" + step] = out["counters"].get("axis:ctx-step-valid=" + step, 0) + 1
             out["devs"] += [(s, case, d) for s, d in devs]
     return _shrink(out)
 
@@ -872,18 +872,20 @@ def explore(ctx):
     def _axis(name, verdict):
         return sum(v for k, v in counters.items() if k.startswith(f"axis:{name}:") and k.endswith(":" + verdict))
 
+    # (the new axes are guarded by the ORACLE's verdicts only: a defect that makes every such parse fail must be
+    # reported as a violation, not as a vacuous run)
     for mode in c19_nest.APPEND_MODES:
-        ctx.require(counters.get(f"axis:app={mode}:ok:valid", 0) > 10, f"'files+' appends inside config files ({mode}): valid layouts are accepted")
+        ctx.require(_axis(f"app={mode}", "valid") > 10, f"'files+' appends inside config files ({mode}): layouts the oracle accepts occur")
     ctx.require(_axis("app=after-set", "invalid") > 10 and _axis("app=onto-argv", "invalid") > 10, "'files+' appends inside config files: layouts with an invalid appended item occur")
     for form in c19_nest.ENTRY_FORMS[1:]:
         if ctx.quick and form == "path-cwdarg":
             continue
         ctx.require(
-            counters.get(f"axis:entry={form}:ok:valid", 0) > 10 and counters.get(f"axis:entry={form}:ArgumentError:invalid", 0) > 10,
-            f"parse_path given the entry file as {form}: both successful and failing parses",
+            _axis(f"entry={form}", "valid") > 10 and _axis(f"entry={form}", "invalid") > 10,
+            f"parse_path given the entry file as {form}: layouts that must parse and layouts that must fail",
         )
     for step in c19_nest.CTX_STEPS:
-        ctx.require(counters.get("axis:ctx-step-entered=" + step, 0) > 10, f"context manager: step kind {step} entered in fully entered sequences")
+        ctx.require(counters.get("axis:ctx-step-valid=" + step, 0) > 10, f"context manager: step kind {step} occurs where the model allows entering it")
     ctx.require(counters.get("ctx:entered=3:raised", 0) > 10 and counters.get("ctx:entered=3:returned", 0) > 10, "context manager: 3 nested blocks entered, with and without exception")
     ctx.require(counters.get("parser:ok", 0) > 100 and counters.get("parser:ArgumentError", 0) > 100, "parser level: both accepted and rejected paths")
     ctx.require(counters.get("admission:valid", 0) > 100 and counters.get("admission:invalid", 0) > 100, "mode admission: valid and invalid strings")
